@@ -98,6 +98,19 @@ def quiet(f, *a, **k):
 # ---------------------------------------------------------------------------------------------------
 # calling the public API
 
+def dc_value(op):
+    """the del_childs argument as passed: the bool itself, or (dc_form) another object of the same truth value - a flag that comes out
+    of a numpy reduction/comparison or an int; the documented meaning is the truth value, and that is all the model sees"""
+    b = bool(op["del_childs"])
+    f = op.get("dc_form")
+    if f == "int":
+        return 1 if b else 0
+    if f == "numpy":
+        import numpy
+        return numpy.bool_(b)
+    return b
+
+
 def call(sys_, op):
     """apply one op; returns the exception (or None)"""
     o = op["op"]
@@ -112,7 +125,7 @@ def call(sys_, op):
     elif o == "change_comp":
         _, e, _ = quiet(lambda: sys_.change_comp(op["name"], comp=mk(op["comp"]), group=op["group"], rail=op["rail"]))
     elif o == "del_comp":
-        _, e, _ = quiet(lambda: sys_.del_comp(op["name"], del_childs=op["del_childs"]))
+        _, e, _ = quiet(lambda: sys_.del_comp(op["name"], del_childs=dc_value(op)))
     elif o == "set_sys_phases":
         _, e, _ = quiet(lambda: sys_.set_sys_phases(dict(op["phases"])))
     elif o == "set_comp_phases":
@@ -552,6 +565,7 @@ def wire_op(op):
         # system.py takes anything that is not a list for ONE parent name: a tuple is the (unknown) name "('A', 'B')"
         o["parent"] = repr(tuple(o["parent"]))
         o.pop("parent_form", None)
+    o.pop("dc_form", None)
     if o["op"] == "set_sys_phases":
         o["phases"] = [[k, repr(float(v))] for k, v in op["phases"]]
     if o["op"] == "set_comp_phases" and op["conf"] != "bad" and "table" in op["conf"]:
@@ -683,7 +697,8 @@ def short(hist):
         elif k == "change_comp":
             out.append("change_comp(%r, comp=%s%s)" % (o["name"], c(o["comp"]), extra))
         elif k == "del_comp":
-            out.append("del_comp(%r, del_childs=%r)" % (o["name"], o["del_childs"]))
+            out.append("del_comp(%r, del_childs=%s)" % (o["name"], {"int": repr(int(o["del_childs"])), "numpy": "numpy.bool_(%r)" % o["del_childs"]}
+                                                         .get(o.get("dc_form"), repr(o["del_childs"]))))
         elif k == "set_sys_phases":
             out.append("set_sys_phases(%r)" % (dict(o["phases"]),))
         elif k == "set_comp_phases":
